@@ -1631,3 +1631,124 @@ def spec_positional_counter(fns, consts):
 
 
 SPECS["C05"].append(spec_positional_counter)
+
+
+# ------------------------------------------------------------------ C02: one value, one index (Parser::push_arg_values)
+
+def spec_push_arg_values(fns, consts):
+    """Parser::push_arg_values, one pass of its loop (call order and data flow on every path back to the
+    loop header): the running index is advanced by exactly one (set(get() + 1)) BEFORE the value is
+    stored; the value stored for the argument is the result of parsing THIS raw value and is stored
+    together with THIS raw value; the index recorded for the argument is the running index read AFTER
+    the increment; a parse error returns before anything is stored."""
+    con = contracts.Contracts(fns, default_pure=True)
+    ctx = symex.Ctx(consts, con)
+    fn = _find(fns, "parser/parser.rs", "push_arg_values")
+    ex = symex.Exec(ctx, fn, [("opq", "self"), ("opq", "arg"), ("opq", "raw_vals"), ("opq", "source"), ("opq", "matcher")])
+    ex.run(havoc_unassigned=True, cut_loops=True)
+    obs = []
+
+    def add(msg, pc, ok, block="loop"):
+        obs.append({"fn": fn.name, "block": block, "kind": "spec", "target": "push_arg_values", "msg": msg, "pc": list(pc), "neg": "false" if ok else "true"})
+
+    n = 0
+    for pc, env in ex.cuts:
+        ca = env.get("#callargs", ())
+        names = [c[0] for c in ca]
+        if "ArgMatcher::add_val_to" not in names and "ArgMatcher::add_index_to" not in names:
+            continue
+        n += 1
+        idx = {k: [i for i, x in enumerate(names) if x == k] for k in ("Cell::<usize>::get", "Cell::<usize>::set", "value_parser::ValueParser::parse_ref", "ArgMatcher::add_val_to", "ArgMatcher::add_index_to")}
+        once = all(len(idx[k]) == 1 for k in ("Cell::<usize>::set", "value_parser::ValueParser::parse_ref", "ArgMatcher::add_val_to", "ArgMatcher::add_index_to")) and len(idx["Cell::<usize>::get"]) == 2
+        if not once:
+            add("one pass stores exactly one value and one index and advances the running index once", pc, False)
+            continue
+        g1, g2 = idx["Cell::<usize>::get"]
+        st, pr, av, ai = (idx[k][0] for k in ("Cell::<usize>::set", "value_parser::ValueParser::parse_ref", "ArgMatcher::add_val_to", "ArgMatcher::add_index_to"))
+        setc, prc, avc, aic = ca[st], ca[pr], ca[av], ca[ai]
+        item = [c for c in ca if re.search(r"IntoIter<OsString> as Iterator>::next$", c[0])]
+        raw = item[-1][2] + "@Some.0" if item else "?"
+        inc = ctx.keys.get(ca[g1][2])
+        add("the running index is advanced by exactly one before the value is stored", pc,
+            g1 < st < av and st < g2 < ai and inc is not None and re.sub(r"\s+", " ", setc[1][1]) in (f"(bvadd {inc} (_ bv1 64))",) and "self." in setc[1][0] and setc[1][0] == ca[g1][1][0] == ca[g2][1][0])
+        add("the stored value is the parse of this raw value, stored together with this raw value, for this argument", pc,
+            pr < av and raw in prc[1][3] and avc[1][1] == "Arg::get_id(arg)" and prc[2] in avc[1][2] and avc[1][3] == raw)
+        add("the index recorded for the argument is the running index read after the increment", pc,
+            aic[1][1] == "Arg::get_id(arg)" and aic[1][2] == ca[g2][2] and av < ai)
+    for (pc, val), ca in zip(ex.returns, ex.return_callargs):
+        names = [c[0] for c in ca]
+        if val[0] == "enum" and val[1] == "Err":
+            add("a value that fails to parse is reported before anything is stored for it", pc, "ArgMatcher::add_val_to" not in names and "ArgMatcher::add_index_to" not in names, block="ret")
+    if n == 0:
+        add("push_arg_values: no path stores a value", [], False, block="shape")
+    return ctx, obs, [_enc(fn, ex, n)], con
+
+
+SPECS["C02"].append(spec_push_arg_values)
+
+
+# ------------------------------------------------------------------ C02: the index of the flag itself (Parser::react)
+
+def spec_react_index(fns, consts):
+    """Parser::react, every path that stores values (loops cut): for Set and Append the running index
+    is advanced once for the flag itself - set(get() + 1), before the values are pushed - exactly when
+    the occurrence comes from the command line through a short or long flag (not a positional, not
+    env/default); SetTrue / SetFalse / Count never advance it in react (their one value carries the
+    index); values are always pushed after start_custom_arg(matcher, arg, source) for the same argument
+    and source."""
+    con = contracts.Contracts(fns, default_pure=True)
+    ctx = symex.Ctx(consts, con)
+    fn = _find(fns, "parser/parser.rs", "react")
+    ex = symex.Exec(ctx, fn, [("opq", "self"), ("opq", "ident"), ("opq", "source"), ("opq", "arg"), ("opq", "raw_vals"), ("opq", "trailing_idx"), ("opq", "matcher")])
+    ex.run(havoc_unassigned=True, cut_loops=True)
+    if "discr(Arg::get_action(arg))" not in ctx.keys:
+        raise Unsupported("react: the action is not matched on")
+    d = ctx.keys["discr(Arg::get_action(arg))"]
+    di = ex.typed_fresh("discr(ident)", "isize")[1]
+    dk = ex.typed_fresh("discr(ident@Some.0)", "isize")[1]
+    names = {0: "Set", 1: "Append", 2: "SetTrue", 3: "SetFalse", 4: "Count"}
+    obs, seen = [], {n: 0 for n in names.values()}
+
+    def add(msg, pc, neg):
+        obs.append({"fn": fn.name, "block": "ret", "kind": "spec", "target": "react_index", "msg": msg, "pc": list(pc), "neg": neg})
+
+    for (pc, val), ca in zip(ex.returns, ex.return_callargs):
+        act = None
+        for c in pc:
+            m = re.match(r"^\(= " + re.escape(d) + r" \(_ bv(\d+) 64\)\)$", c)
+            if m:
+                act = int(m.group(1))
+        cn = [c[0] for c in ca]
+        push = [i for i, n in enumerate(cn) if n.endswith("::push_arg_values")]
+        if act not in names or not push:
+            continue
+        tag = names[act]
+        seen[tag] += 1
+        sets = [i for i, n in enumerate(cn) if n == "Cell::<usize>::set"]
+        gets = [i for i, n in enumerate(cn) if n == "Cell::<usize>::get"]
+        starts = [i for i, n in enumerate(cn) if n.endswith("::start_custom_arg")]
+        ok = len(push) == 1 and len(starts) == 1 and starts[0] < push[0] and ca[starts[0]][1] == ("self", "matcher", "arg", "source") \
+            and ca[push[0]][1][0] == "self" and ca[push[0]][1][1] == "arg" and ca[push[0]][1][3:] == ("source", "matcher")
+        add(f"{tag}: values are pushed once, after start_custom_arg for the same argument and source", pc, "false" if ok else "true")
+        if act in (0, 1):
+            eqs = [i for i, n in enumerate(cn) if n == "<ValueSource as PartialEq>::eq" and i < starts[0]] if starts else []
+            if not eqs:
+                add(f"{tag}: the source is not consulted before the values are pushed", pc, "true")
+                continue
+            eqsym = ctx.keys.get(ca[eqs[-1]][2])
+            is_cl = "CommandLine" in ca[eqs[-1]][1][1] or "promoted" in ca[eqs[-1]][1][1]
+            cond = f"(and {eqsym} (= {di} (_ bv1 64)) (or (= {dk} (_ bv0 64)) (= {dk} (_ bv1 64))))"
+            if sets:
+                inc = ctx.keys.get(ca[gets[0]][2]) if gets else None
+                shape = len(sets) == 1 and gets and gets[0] < sets[0] < push[0] and inc and ca[sets[0]][1][1] == f"(bvadd {inc} (_ bv1 64))" and ca[sets[0]][1][0] == ca[gets[0]][1][0] and is_cl
+                add(f"{tag}: the flag's own index is taken (exactly +1, before its values) only for a short/long occurrence on the command line", pc, f"(not {cond})" if shape else "true")
+            else:
+                add(f"{tag}: a short/long occurrence on the command line always takes an index for the flag itself", pc, cond if is_cl else "true")
+        else:
+            add(f"{tag}: react does not advance the running index itself (the implied value carries it)", pc, "true" if sets else "false")
+    if not all(seen.values()):
+        add("react: an action arm stores no values on any path (reference shape lost): " + ", ".join(k for k, v in seen.items() if not v), [], "true")
+    return ctx, obs, [_enc(fn, ex, len(obs))], con
+
+
+SPECS["C02"].append(spec_react_index)
